@@ -310,6 +310,10 @@ def run(chk, ctx):
     round3.tidy_up_callers(chk, ctx)            # held branch events are released only when the fan-out is torn down
     round3.retained_ack(chk, ctx)
     round3.drop_arm_acks_directly(chk, ctx)
+    from . import round4, c08
+    round4.orphan_entry_timer_paired(chk, ctx)
+    c08.r4(chk, ctx)                         # 'no timer left behind': every completion path disarms the request's timer
+    round3.timer_cleared_only_on_completion(chk, ctx)
     chk.assume("the broker redelivers unacknowledged messages (trusted)")
     chk.assume("engine-internal calls do not raise; exception edges come from the may-raise table of sa/flow.py")
     chk.assume("an uncaught exception in a timer/reply callback is not acknowledged by anybody (C18.R4 findings are therefore also C03 findings)")
@@ -320,6 +324,10 @@ def _ack_is_idempotent(chk, ctx):
     ed = ctx.mod("event_dispatcher")
     f = ed.func("EventDispatcher.acknowledge")
     trys = [n for n in f.node.body if isinstance(n, ast.Try)]
+    others = [n for n in f.node.body if not isinstance(n, ast.Try) and not (isinstance(n, ast.Expr) and isinstance(n.value, ast.Constant))]
+    chk.ob("C03.R1b", "EventDispatcher.acknowledge does nothing but the single-delivery acknowledge (no other arm, `id` has no default)", not others and not f.node.args.defaults, "",
+           key="EventDispatcher.acknowledge | has an arm besides the single-delivery acknowledge (`%s`)" % (short(others[0], 60) if others else "id=<default>"), where=f.where(others[0]) if others else f.where(),
+           message="every handler calls acknowledge(id) for its own event; an arm that acknowledges other held deliveries (e.g. all of them for id None) acknowledges events of other executions before their consequences are issued")
     ok = len(trys) == 1 and any(h.type is None or norm(h.type) in ("Exception", "KeyError", "(KeyError, Exception)") for h in trys[0].handlers)
     if ok:
         body = [norm(s) for s in trys[0].body]
